@@ -149,5 +149,39 @@ class Check(PropertyCheck):
         return f"status:{case[0]}:{case[1]}" + (f":v{case[2]}.{case[3]}" if len(case) == 4 else "")
 
     def extra_checks(self, rep, tier, rng):
+        # the stack-status callback is a conversion call site too: a network up / down event reported in the status family
+        # of the running version (legacy stack status up to v13, unified from v14) wakes the waiter of the unified member
+        import asyncio
+        import bellows.ezsp as E
+        import bellows.types as t
+        n = 0
+        asyncio.set_event_loop(self.loop)
+        for v in sorted(E.EZSP._BY_VERSION):
+            for member in ("NETWORK_UP", "NETWORK_DOWN"):
+                if v not in self.ez:
+                    self.ez[v] = self.stack.make_ezsp(v)
+                ez = self.ez[v]
+                native = getattr(t.sl_Status if v >= 14 else t.EmberStatus, member)
+                want = getattr(t.sl_Status, member)
+
+                async def go():
+                    with ez.wait_for_stack_status(want) as fut:
+                        ez.handle_callback("stackStatusHandler", [native])
+                        await asyncio.sleep(0)
+                        return fut.done() and not fut.cancelled() and fut.exception() is None
+                try:
+                    woke = self.loop.run_until_complete(go())
+                except BaseException as e:  # noqa
+                    woke = repr(e)
+                n += 1
+                if woke is not True:
+                    rep.violation({"input": {"version": v, "stack_status_event": f"{type(native).__name__}.{member} ({int(native):#x})",
+                                             "waiter": f"sl_Status.{member}"},
+                                   "observed": f"waiter woken: {woke}",
+                                   "required": "the network up / down codes that steer start-up decisions map to their unified counterparts "
+                                               "where they are consumed: the event wakes the waiter of the unified status"},
+                                  found_input=True, signature="status:stack-status-site")
+                    break
+        rep.cov["stack_status_event_sites"] = n
         rep.cov["exhaustive"] = True
         rep.cov["exhaustive_over"] = "both 8-bit legacy families (512 inputs) and all defined unified members"
